@@ -1,11 +1,14 @@
 import SqiModel.Ideal
 import SqiProofs.Ideal
+import SqiProofs.IdealCovol
+import SqiProofs.IdealPrim
 import SqiGen.Tables1
 import SqiGen.Tables3
 import SqiGen.Tables5
 /- C15 — left ideals and orders.  Property theorems only (+ non-vacuity examples). -/
 namespace SqiProps.C15
 open SqiModel.Quat SqiModel.Ideal SqiProofs.QuatAlg SqiProofs.QuatMat SqiProofs.Hnf SqiProofs.QuatLattice SqiProofs.Ideal
+open SqiProofs.IdealAlg SqiProofs.IdealFull SqiProofs.IdealCovol SqiProofs.IdealPrim
 open scoped Pointwise
 
 /-! Notation: `H p = ℍ[ℚ, -1, 0, -p]` (Mathlib `QuaternionAlgebra`), `val p x : H p` the value of a
@@ -177,6 +180,212 @@ theorem lideal_mul_sound (p : ℤ) (I : LeftIdeal) (alpha : Elem) (bound prev : 
   refine ⟨_, n, N', hg, genCandidate_mem p I v hd, ?_, rfl⟩
   rw [(createFromPrimitive_lattice p _ N' I.order prev hO (algMul_denom_ne p _ _ hgd ha)).1, algMul_val p _ _ hgd ha]
 
+/-! ## Full theorems: norm, index, generators, products, transporters (no per-output checker)
+
+    `IsOrder O` (IdealAlg): `1 ∈ O`, `O` closed under multiplication and conjugation — proved for every linked order
+    (`L*_orders_are_orders` below).  `IsLeftIdealOfNorm O I n`: `O·I ⊆ I ⊆ O`, `n ∈ I`, `y·z̄ ∈ n·O` for all `y, z ∈ I`
+    ("`I` carries the reduced norm `n`").  `genIdeal O x N = O·x ⊔ N·O`.  `transporter L1 L2 = {x | L1·x ⊆ L2}`.
+    Everything below is elementary (Bezout + conjugation + determinants); what is *not* proved is the existence of a
+    generator with cofactor coprime to the norm for every primitive `x` of a maximal order (local theory) — wherever it
+    is needed it appears as an explicit witness (`generatorCoprime … = some g`, or the cofactor condition on `x`). -/
+
+/-- **`create_from_primitive` returns a left ideal carrying its stored norm** `gcd(N(x), N)`, for every `x ∈ O`
+    (primitive or not), every `N`. -/
+theorem create_from_primitive_is_ideal_of_norm (p : ℤ) (x : Elem) (N : ℤ) (O : Lattice) (prev nx : ℤ)
+    (hO : O.denom ≠ 0) (hx : x.denom ≠ 0) (hord : IsOrder (hLat p O)) (hxO : val p x ∈ hLat p O)
+    (hn : nrm (val p x) = nx) :
+    IsLeftIdealOfNorm (hLat p O) (hLat p (createFromPrimitive p x N O prev).lattice)
+      (createFromPrimitive p x N O prev).norm :=
+  createFromPrimitive_isLeftIdealOfNorm p x N O prev nx hO hx hord hxO hn
+
+/-- **`create_principal`: norm² = index.**  `covol(O·x) = N(x)²·covol(O)` for the returned HNF lattice. -/
+theorem create_principal_norm_index (p : ℤ) (x : Elem) (O : Lattice) (prev : ℤ) (hx : x.denom ≠ 0) (hO : O.denom ≠ 0)
+    (hdetO : (toMatrix O.basis).det ≠ 0) (hN : nrm (val p x) ≠ 0) :
+    covol (createPrincipal p x O prev).lattice = nrm (val p x) ^ 2 * covol O :=
+  principalLattice_covol p x O hx hO hdetO hN
+
+/-- **`create_from_primitive`: norm² = index, direct case**: if the cofactor `N(x)/n` of `n = gcd(N(x), N)` is coprime
+    to `n` (in particular when `N ∥ N(x)`, `N(x) ∣ N` or `gcd(N(x), N) = 1`), the stored norm satisfies
+    `covol(I) = n²·covol(O)` — for every order `O` and every `x ∈ O`, primitive or not. -/
+theorem create_from_primitive_norm_index (p : ℤ) (x : Elem) (N : ℤ) (O : Lattice) (prev nx q : ℤ)
+    (hO : O.denom ≠ 0) (hx : x.denom ≠ 0) (hdetO : (toMatrix O.basis).det ≠ 0)
+    (hord : IsOrder (hLat p O)) (hxO : val p x ∈ hLat p O) (hn : nrm (val p x) = nx) (hnx : nx ≠ 0)
+    (hq : nx = (Int.gcd nx N : ℤ) * q) (hc : Int.gcd q (Int.gcd nx N : ℤ) = 1) :
+    covol (createFromPrimitive p x N O prev).lattice =
+      ((createFromPrimitive p x N O prev).norm : ℚ) ^ 2 * covol O :=
+  createFromPrimitive_covol_direct p x N O prev nx q hO hx hdetO hord hxO hn hnx hq hc
+
+/-- **`create_from_primitive`: norm² = index for primitive generators (FULL).**  `O` certified by `isOrderCert` and
+    `gramOk` (HNF ring with 1, closed under conjugation, integral trace form with Gram determinant `p²`: every linked
+    order, see `linked_orders_certified`), `x ∈ O` with `quat_alg_is_primitive` true, `n = gcd(N(x), N) ≠ 0` prime to `p`.
+    Then `covol(I) = n²·covol(O)` for the returned ideal, `n` its stored norm.  (Proof: unimodularity of the trace form
+    at every `ℓ | n` gives `y ∈ O` with `N(x + N·y)/n` prime to `n`; then index arithmetic with `O·g ⊆ I ⊆ O`.)
+    Not covered: `p | gcd(N(x), N)` (never the case for the norms used by the scheme). -/
+theorem create_from_primitive_norm_index_primitive (p : ℤ) (x : Elem) (N : ℤ) (O : Lattice) (prev nx : ℤ)
+    (ho : isOrderCert p O = true) (hg : gramOk p O = true) (hx : x.denom ≠ 0)
+    (hxO : (latContains O x).1 = true) (hprim : isPrimitive O x = true)
+    (hn : nrm (val p x) = nx) (hn0 : Int.gcd nx N ≠ 0)
+    (hcop : ∀ ℓ : ℕ, ℓ.Prime → ℓ ∣ Int.gcd nx N → ¬ (ℓ : ℤ) ∣ p) :
+    covol (createFromPrimitive p x N O prev).lattice =
+      ((createFromPrimitive p x N O prev).norm : ℚ) ^ 2 * covol O :=
+  createFromPrimitive_covol_primitive p x N O prev nx ho hg hx hxO hprim hn hn0 hcop
+
+/-- **`make_primitive_then_create`** (full): for `0 ≠ x ∈ O` it is `create_from_primitive` on a *primitive* `y ∈ O` with
+    `x = content·y` and on `N / gcd(content, N)`. -/
+theorem make_primitive_then_create_full (p : ℤ) (x : Elem) (N : ℤ) (O : Lattice) (prev : ℤ)
+    (ho : isOrderCert p O = true) (hx : x.denom ≠ 0) (hxO : (latContains O x).1 = true)
+    (hc0 : (makePrimitive O x).2 ≠ 0) :
+    let y : Elem := ⟨O.denom, O.basis.eval (makePrimitive O x).1⟩
+    makePrimitiveThenCreate p x N O prev =
+      createFromPrimitive p y (Int.tdiv N (Int.gcd (makePrimitive O x).2 N)) O prev ∧
+    (latContains O y).1 = true ∧ isPrimitive O y = true ∧
+    val p x = ((makePrimitive O x).2 : ℤ) • val p y :=
+  makePrimitiveThenCreate_spec p x N O prev ho hx hxO hc0
+
+/-- **`make_primitive_then_create`: norm² = index** — composition with `create_from_primitive_norm_index_primitive`. -/
+theorem make_primitive_then_create_norm_index (p : ℤ) (x : Elem) (N : ℤ) (O : Lattice) (prev ny : ℤ)
+    (ho : isOrderCert p O = true) (hg : gramOk p O = true) (hx : x.denom ≠ 0) (hxO : (latContains O x).1 = true)
+    (hc0 : (makePrimitive O x).2 ≠ 0)
+    (hn : nrm (val p ⟨O.denom, O.basis.eval (makePrimitive O x).1⟩) = ny)
+    (hn0 : Int.gcd ny (Int.tdiv N (Int.gcd (makePrimitive O x).2 N)) ≠ 0)
+    (hcop : ∀ ℓ : ℕ, ℓ.Prime → ℓ ∣ Int.gcd ny (Int.tdiv N (Int.gcd (makePrimitive O x).2 N)) → ¬ (ℓ : ℤ) ∣ p) :
+    covol (makePrimitiveThenCreate p x N O prev).lattice =
+      ((makePrimitiveThenCreate p x N O prev).norm : ℚ) ^ 2 * covol O := by
+  obtain ⟨e, hyO, hyp, _⟩ := makePrimitiveThenCreate_spec p x N O prev ho hx hxO hc0
+  obtain ⟨hd, _, _, _⟩ := isOrderCert_sound p O ho
+  rw [e]
+  exact create_from_primitive_norm_index_primitive p _ _ O prev ny ho hg hd hyO hyp hn hn0 hcop
+
+/-- existence of a generator with cofactor prime to the norm (the classical lemma, here proved): under the hypotheses
+    of `create_from_primitive_norm_index_primitive` stated in the algebra -/
+theorem exists_generator_coprime_cofactor {p : ℤ} {O : Submodule ℤ (H p)} (hO : IsIntegralOrder O) (x : H p) (nx N : ℤ)
+    (hn : HasNorm x nx) (hn0 : Int.gcd nx N ≠ 0)
+    (hnd : ∀ ℓ : ℕ, ℓ.Prime → ℓ ∣ Int.gcd nx N → ∃ b ∈ O, ∃ m : ℤ, TracePair x b m ∧ ¬ ((ℓ : ℤ) ∣ m)) :
+    ∃ y ∈ O, ∃ q : ℤ, HasNorm (x + N • y) ((Int.gcd nx N : ℤ) * q) ∧ Int.gcd q (Int.gcd nx N : ℤ) = 1 :=
+  exists_generator hO x nx N hn hn0 hnd
+
+/-- **norm² = index, general case with a witness** (PARTIAL w.r.t. the full property: the full statement "for every
+    primitive `x` of a maximal order" additionally needs that a generator with cofactor coprime to the norm *exists*;
+    here its existence is witnessed by the success of the model's own `generator_coprime` search).  -/
+theorem norm_index_of_generator_partial (p : ℤ) (I : LeftIdeal) (n bound : ℤ) (g : Elem)
+    (hO : I.order.denom ≠ 0) (hd : I.lattice.denom ≠ 0) (hdetO : (toMatrix I.order.basis).det ≠ 0)
+    (hord : IsOrder (hLat p I.order))
+    (hI : IsLeftIdealOfNorm (hLat p I.order) (hLat p I.lattice) I.norm) (hn0 : I.norm ≠ 0)
+    (h : generatorCoprime p I n bound = some g) (hg0 : nrm (val p g) ≠ 0) :
+    covol I.lattice = (I.norm : ℚ) ^ 2 * covol I.order :=
+  covol_of_generatorCoprime p I n bound g hO hd hdetO hord hI hn0 h hg0
+
+/-- the covolume equation is the statement about Mathlib's group index: `[O : I] = n²` -/
+theorem norm_index_as_group_index (O I : Lattice) (n : ℤ) (hO : O.denom ≠ 0) (hI : I.denom ≠ 0)
+    (hdetO : (toMatrix O.basis).det ≠ 0) (hle : ratLat I ≤ ratLat O) (hn0 : n ≠ 0)
+    (hc : covol I = (n : ℚ) ^ 2 * covol O) :
+    (ratLat I).toAddSubgroup.relIndex (ratLat O).toAddSubgroup = n.natAbs ^ 2 :=
+  relIndex_of_covol O I n hO hI hdetO hle hn0 hc
+
+/-- **a reported generator generates** (full, no certificate): if `quat_lideal_generator_coprime` (model) returns `g`
+    for an ideal that carries its stored norm, then `I = O·g + N(I)·O`, `g ∈ I`, `N(g) = N(I)·q` with `q` coprime to
+    `N(I)` and to `n`. -/
+theorem generator_generates (p : ℤ) (I : LeftIdeal) (n bound : ℤ) (g : Elem)
+    (hd : I.lattice.denom ≠ 0) (hord : IsOrder (hLat p I.order))
+    (hI : IsLeftIdealOfNorm (hLat p I.order) (hLat p I.lattice) I.norm) (hn0 : I.norm ≠ 0)
+    (h : generatorCoprime p I n bound = some g) :
+    hLat p I.lattice = genIdeal (hLat p I.order) (val p g) I.norm ∧ val p g ∈ hLat p I.lattice ∧
+    ∃ q : ℤ, nrm (val p g) = ((I.norm * q : ℤ) : ℚ) ∧ Int.gcd q I.norm = 1 ∧ Int.gcd q n = 1 :=
+  generatorCoprime_generates p I n bound g hd hord hI hn0 h
+
+/-- **`quat_lideal_mul` returns `I·α`** (full): for `α ∈ O` with `N(α) = m` and `I` carrying its stored norm `≠ 0`, a
+    returned `J` has `J = I·α` as lattices, stored norm `|N(I)·m|`, parent `O`, and carries the norm `N(I)·m` again.
+    The hypothesis that makes `O·(gα) + N(I)N(α)·O = I·α` true is `gcd(N(g)/N(I), N(α)) = 1`; the model obtains it from
+    the generator search called with `n = N(α)` (the seeded change C15-m1 calls the search without it). -/
+theorem lideal_mul_returns_product (p : ℤ) (I : LeftIdeal) (alpha : Elem) (bound prev m : ℤ) (J : LeftIdeal)
+    (hO : I.order.denom ≠ 0) (hd : I.lattice.denom ≠ 0) (ha : alpha.denom ≠ 0)
+    (hord : IsOrder (hLat p I.order))
+    (hI : IsLeftIdealOfNorm (hLat p I.order) (hLat p I.lattice) I.norm) (hn0 : I.norm ≠ 0)
+    (haO : val p alpha ∈ hLat p I.order) (hm : nrm (val p alpha) = m)
+    (h : lidealMul p I alpha bound prev = some J) :
+    hLat p J.lattice = hLat p I.lattice * Submodule.span ℤ {val p alpha} ∧
+    J.norm = ((I.norm * m).natAbs : ℤ) ∧ J.order = I.order ∧
+    IsLeftIdealOfNorm (hLat p I.order) (hLat p J.lattice) (I.norm * m) :=
+  lidealMul_full p I alpha bound prev m J hO hd ha hord hI hn0 haO hm h
+
+/-- **the right transporter of two left ideals is `N(I1)⁻¹·Ī1·I2`** (algebra): for `I1` carrying the norm `n1 ≠ 0`
+    with `n1 ∈ Ī1·I1`, and `O·I2 ⊆ I2`: `I1·x ⊆ I2 ↔ n1·x ∈ Ī1·I2`. -/
+theorem transporter_characterisation {p : ℤ} {O I1 I2 : Submodule ℤ (H p)} {n1 : ℤ}
+    (hI1 : IsLeftIdealOfNorm O I1 n1) (hn0 : n1 ≠ 0)
+    (hinv : ((n1 : ℤ) : H p) ∈ conjS I1 * I1) (hI2 : ∀ a ∈ O, ∀ y ∈ I2, a * y ∈ I2) (x : H p) :
+    x ∈ transporter I1 I2 ↔ n1 • x ∈ conjS I1 * I2 := mem_transporter_iff hI1 hn0 hinv hI2 x
+
+/-- **an accepted exact certificate *is* the right transporter**: `isRightTransporterExact` (`I1·T ⊆ I2` and
+    `Ī1·I2 ⊆ N(I1)·T`, 32 membership tests) true ⇒ `T = {x | I1·x ⊆ I2}`.  `hinv` holds whenever `I1` has a generator of
+    cofactor coprime to its norm (`norm_mem_conj_mul_of_generator`). -/
+theorem right_transporter_exact (p : ℤ) (I1 I2 : LeftIdeal) (T : Lattice)
+    (hI1 : IsLeftIdealOfNorm (hLat p I1.order) (hLat p I1.lattice) I1.norm)
+    (hinv : ((I1.norm : ℤ) : H p) ∈ conjS (hLat p I1.lattice) * hLat p I1.lattice)
+    (hI2 : ∀ a ∈ hLat p I1.order, ∀ y ∈ hLat p I2.lattice, a * y ∈ hLat p I2.lattice)
+    (h : isRightTransporterExact p I1 I2 T = true) :
+    hLat p T = transporter (hLat p I1.lattice) (hLat p I2.lattice) :=
+  isRightTransporterExact_sound p I1 I2 T hI1 hinv hI2 h
+
+/-- **an accepted exact certificate *is* the right order** `{x | I·x ⊆ I}` (a ring with 1). -/
+theorem right_order_exact (p : ℤ) (I : LeftIdeal) (O' : Lattice)
+    (hI : IsLeftIdealOfNorm (hLat p I.order) (hLat p I.lattice) I.norm)
+    (hinv : ((I.norm : ℤ) : H p) ∈ conjS (hLat p I.lattice) * hLat p I.lattice)
+    (h : isRightOrderExact p I O' = true) :
+    hLat p O' = transporter (hLat p I.lattice) (hLat p I.lattice) ∧ (1 : H p) ∈ hLat p O' ∧
+    hLat p O' * hLat p O' ≤ hLat p O' :=
+  isRightOrderExact_sound p I O' hI hinv h
+
+/-- **invertibility of constructed ideals**: for `I = create_from_primitive(x, N)` with `x` primitive in a certified order
+    and `gcd(N(x), N) ≠ 0` prime to `p`: `N(I) ∈ Ī·I`. -/
+theorem create_from_primitive_invertible (p : ℤ) (x : Elem) (N : ℤ) (O : Lattice) (prev nx : ℤ)
+    (ho : isOrderCert p O = true) (hg : gramOk p O = true) (hx : x.denom ≠ 0)
+    (hxO : (latContains O x).1 = true) (hprim : isPrimitive O x = true)
+    (hn : nrm (val p x) = nx) (hn0 : Int.gcd nx N ≠ 0)
+    (hcop : ∀ ℓ : ℕ, ℓ.Prime → ℓ ∣ Int.gcd nx N → ¬ (ℓ : ℤ) ∣ p) :
+    (((createFromPrimitive p x N O prev).norm : ℤ) : H p) ∈
+      conjS (hLat p (createFromPrimitive p x N O prev).lattice) * hLat p (createFromPrimitive p x N O prev).lattice :=
+  createFromPrimitive_norm_mem_conj_mul p x N O prev nx ho hg hx hxO hprim hn hn0 hcop
+
+/-- **right order of a constructed ideal** (composition of the above): for `I = create_from_primitive(x, N)` as in
+    `create_from_primitive_invertible`, a lattice accepted by the exact certificate is *the* right order of `I`. -/
+theorem right_order_of_constructed_ideal (p : ℤ) (x : Elem) (N : ℤ) (O O' : Lattice) (prev nx : ℤ)
+    (ho : isOrderCert p O = true) (hg : gramOk p O = true) (hx : x.denom ≠ 0)
+    (hxO : (latContains O x).1 = true) (hprim : isPrimitive O x = true)
+    (hn : nrm (val p x) = nx) (hn0 : Int.gcd nx N ≠ 0)
+    (hcop : ∀ ℓ : ℕ, ℓ.Prime → ℓ ∣ Int.gcd nx N → ¬ (ℓ : ℤ) ∣ p)
+    (h : isRightOrderExact p (createFromPrimitive p x N O prev) O' = true) :
+    hLat p O' = transporter (hLat p (createFromPrimitive p x N O prev).lattice)
+      (hLat p (createFromPrimitive p x N O prev).lattice) := by
+  obtain ⟨hd, hnO, _, _⟩ := isOrderCert_sound p O ho
+  have hxmem : val p x ∈ hLat p O := (latContains_iff_val p O x hd hx hnO).1 hxO
+  have e : (createFromPrimitive p x N O prev).order = O := rfl
+  have h1 : IsLeftIdealOfNorm (hLat p (createFromPrimitive p x N O prev).order)
+      (hLat p (createFromPrimitive p x N O prev).lattice) (createFromPrimitive p x N O prev).norm := by
+    rw [e]
+    exact create_from_primitive_is_ideal_of_norm p x N O prev nx hd hx (isOrder_of_cert p O ho) hxmem hn
+  exact (right_order_exact p (createFromPrimitive p x N O prev) O' h1
+    (create_from_primitive_invertible p x N O prev nx ho hg hx hxO hprim hn hn0 hcop) h).1
+
+/-- **`quat_connecting_ideal` returns `N·O₁·O₂`**, `N = quat_lattice_index(O₁ ∩ O₂, O₁)`; for rings with 1 it satisfies the
+    defining inclusions of a connecting ideal: `O₁·I ⊆ I` and `I·O₂ ⊆ I`. -/
+theorem connecting_ideal_spec (p : ℤ) (O1 O2 : Lattice) (prev : ℤ) (h1 : O1.denom ≠ 0) (h2 : O2.denom ≠ 0)
+    (hone : (1 : H p) ∈ hLat p O2) :
+    let N := latIndex (latIntersect O1 O2) O1
+    hLat p (connectingIdeal p O1 O2 prev).lattice = nsmul' N (hLat p O1 * hLat p O2) ∧
+    (hLat p O1 * hLat p O1 ≤ hLat p O1 →
+      hLat p O1 * hLat p (connectingIdeal p O1 O2 prev).lattice ≤ hLat p (connectingIdeal p O1 O2 prev).lattice) ∧
+    (hLat p O2 * hLat p O2 ≤ hLat p O2 →
+      hLat p (connectingIdeal p O1 O2 prev).lattice * hLat p O2 ≤ hLat p (connectingIdeal p O1 O2 prev).lattice) :=
+  connectingIdeal_spec p O1 O2 prev h1 h2 hone
+
+/-- the invertibility hypothesis `N(I) ∈ Ī·I` follows from a successful generator search -/
+theorem norm_mem_conj_mul_of_generator_found (p : ℤ) (I : LeftIdeal) (n bound : ℤ) (g : Elem)
+    (hd : I.lattice.denom ≠ 0) (hord : IsOrder (hLat p I.order))
+    (hI : IsLeftIdealOfNorm (hLat p I.order) (hLat p I.lattice) I.norm) (hn0 : I.norm ≠ 0)
+    (h : generatorCoprime p I n bound = some g) :
+    ((I.norm : ℤ) : H p) ∈ conjS (hLat p I.lattice) * hLat p I.lattice :=
+  norm_mem_conj_mul_of_generator p I n bound g hd hord hI hn0 h
+
 /-! ## Certificate checkers for the routines built on matkermod.c / lll.c -/
 
 /-- `isomCert` accepted ⇒ `I2 = I1·iso` (what `quat_lideal_isom` promises when it returns 1). -/
@@ -307,6 +516,109 @@ theorem maxord_O0_is_maximal_order :
   · obtain ⟨O, h, _, _, a, b, c⟩ := maxOrderOk_sound _ prime_ne_zero_L5 _ L5_maxord_O0_ok
     exact ⟨O, h, a, b, c⟩
 
+/-- every accepted maximal-order table entry is an order in the sense used by the full theorems -/
+theorem maxOrderOk_isOrder (p : ℤ) (t : ℤ × List (List ℤ)) (h : maxOrderOk p t = true) :
+    ∃ O : Lattice, latOfTable t = some O ∧ IsOrder (hLat p O) ∧ O.denom ≠ 0 ∧ (toMatrix O.basis).det ≠ 0 := by
+  unfold maxOrderOk at h
+  split at h
+  · rename_i O hO
+    simp only [Bool.and_eq_true] at h
+    obtain ⟨d, n, _, _⟩ := isOrderCert_sound p O h.1.1
+    exact ⟨O, hO, isOrder_of_cert p O h.1.1, d, det_ne_zero_of_isHNF _ n⟩
+  · simp at h
+
+theorem extremalOk_maxOrderOk (p : ℤ) (e : (ℤ × List (List ℤ)) × (ℤ × List ℤ) × (ℤ × List ℤ) × ℤ)
+    (h : extremalOk p e = true) : maxOrderOk p e.1 = true := by
+  unfold extremalOk at h
+  split at h
+  · simp only [Bool.and_eq_true] at h; exact h.1.1.1.1
+  · simp at h
+
+/-- an accepted maximal-order entry satisfies both order certificates used by the full theorems -/
+theorem maxOrderOk_certified (p : ℤ) (t : ℤ × List (List ℤ)) (h : maxOrderOk p t = true) :
+    ∃ O : Lattice, latOfTable t = some O ∧ isOrderCert p O = true ∧ gramOk p O = true := by
+  unfold maxOrderOk at h
+  split at h
+  · rename_i O hO
+    simp only [Bool.and_eq_true] at h
+    exact ⟨O, hO, h.1.1, h.2⟩
+  · simp at h
+
+/-- every linked order of the three levels is certified (`isOrderCert` ∧ `gramOk`) -/
+theorem linked_orders_certified :
+    (∀ t ∈ SqiGen.L1.W64.MAXORD_O0 :: (SqiGen.L1.W64.STANDARD_EXTREMAL_ORDER :: SqiGen.L1.W64.ALTERNATE_EXTREMAL_ORDERS).map (·.1),
+      ∃ O, latOfTable t = some O ∧ isOrderCert SqiGen.L1.W64.QUATALG_PINFTY_p O = true ∧ gramOk SqiGen.L1.W64.QUATALG_PINFTY_p O = true) ∧
+    (∀ t ∈ SqiGen.L3.W64.MAXORD_O0 :: (SqiGen.L3.W64.STANDARD_EXTREMAL_ORDER :: SqiGen.L3.W64.ALTERNATE_EXTREMAL_ORDERS).map (·.1),
+      ∃ O, latOfTable t = some O ∧ isOrderCert SqiGen.L3.W64.QUATALG_PINFTY_p O = true ∧ gramOk SqiGen.L3.W64.QUATALG_PINFTY_p O = true) ∧
+    (∀ t ∈ SqiGen.L5.W64.MAXORD_O0 :: (SqiGen.L5.W64.STANDARD_EXTREMAL_ORDER :: SqiGen.L5.W64.ALTERNATE_EXTREMAL_ORDERS).map (·.1),
+      ∃ O, latOfTable t = some O ∧ isOrderCert SqiGen.L5.W64.QUATALG_PINFTY_p O = true ∧ gramOk SqiGen.L5.W64.QUATALG_PINFTY_p O = true) := by
+  refine ⟨?_, ?_, ?_⟩
+  · intro t ht
+    apply maxOrderOk_certified
+    rcases List.mem_cons.1 ht with rfl | ht
+    · exact L1_maxord_O0_ok
+    · obtain ⟨e, he, rfl⟩ := List.mem_map.1 ht
+      apply extremalOk_maxOrderOk
+      rcases List.mem_cons.1 he with rfl | he
+      · exact L1_standard_extremal_ok.1
+      · exact List.all_eq_true.1 L1_alternate_extremal_ok.2 e he
+  · intro t ht
+    apply maxOrderOk_certified
+    rcases List.mem_cons.1 ht with rfl | ht
+    · exact L3_maxord_O0_ok
+    · obtain ⟨e, he, rfl⟩ := List.mem_map.1 ht
+      apply extremalOk_maxOrderOk
+      rcases List.mem_cons.1 he with rfl | he
+      · exact L3_standard_extremal_ok.1
+      · exact List.all_eq_true.1 L3_alternate_extremal_ok.2 e he
+  · intro t ht
+    apply maxOrderOk_certified
+    rcases List.mem_cons.1 ht with rfl | ht
+    · exact L5_maxord_O0_ok
+    · obtain ⟨e, he, rfl⟩ := List.mem_map.1 ht
+      apply extremalOk_maxOrderOk
+      rcases List.mem_cons.1 he with rfl | he
+      · exact L5_standard_extremal_ok.1
+      · exact List.all_eq_true.1 L5_alternate_extremal_ok.2 e he
+
+/-- all linked orders (MAXORD_O0, STANDARD, the 7 alternates; three levels) are orders: rings with 1 closed under
+    conjugation, of full rank — the hypotheses `IsOrder`, `denom ≠ 0`, `det ≠ 0` of the full theorems hold for them -/
+theorem linked_orders_are_orders :
+    (∀ t ∈ SqiGen.L1.W64.MAXORD_O0 :: (SqiGen.L1.W64.STANDARD_EXTREMAL_ORDER :: SqiGen.L1.W64.ALTERNATE_EXTREMAL_ORDERS).map (·.1),
+      ∃ O, latOfTable t = some O ∧ IsOrder (hLat SqiGen.L1.W64.QUATALG_PINFTY_p O) ∧ O.denom ≠ 0 ∧ (toMatrix O.basis).det ≠ 0) ∧
+    (∀ t ∈ SqiGen.L3.W64.MAXORD_O0 :: (SqiGen.L3.W64.STANDARD_EXTREMAL_ORDER :: SqiGen.L3.W64.ALTERNATE_EXTREMAL_ORDERS).map (·.1),
+      ∃ O, latOfTable t = some O ∧ IsOrder (hLat SqiGen.L3.W64.QUATALG_PINFTY_p O) ∧ O.denom ≠ 0 ∧ (toMatrix O.basis).det ≠ 0) ∧
+    (∀ t ∈ SqiGen.L5.W64.MAXORD_O0 :: (SqiGen.L5.W64.STANDARD_EXTREMAL_ORDER :: SqiGen.L5.W64.ALTERNATE_EXTREMAL_ORDERS).map (·.1),
+      ∃ O, latOfTable t = some O ∧ IsOrder (hLat SqiGen.L5.W64.QUATALG_PINFTY_p O) ∧ O.denom ≠ 0 ∧ (toMatrix O.basis).det ≠ 0) := by
+  refine ⟨?_, ?_, ?_⟩
+  · intro t ht
+    apply maxOrderOk_isOrder
+    rcases List.mem_cons.1 ht with rfl | ht
+    · exact L1_maxord_O0_ok
+    · obtain ⟨e, he, rfl⟩ := List.mem_map.1 ht
+      apply extremalOk_maxOrderOk
+      rcases List.mem_cons.1 he with rfl | he
+      · exact L1_standard_extremal_ok.1
+      · exact List.all_eq_true.1 L1_alternate_extremal_ok.2 e he
+  · intro t ht
+    apply maxOrderOk_isOrder
+    rcases List.mem_cons.1 ht with rfl | ht
+    · exact L3_maxord_O0_ok
+    · obtain ⟨e, he, rfl⟩ := List.mem_map.1 ht
+      apply extremalOk_maxOrderOk
+      rcases List.mem_cons.1 he with rfl | he
+      · exact L3_standard_extremal_ok.1
+      · exact List.all_eq_true.1 L3_alternate_extremal_ok.2 e he
+  · intro t ht
+    apply maxOrderOk_isOrder
+    rcases List.mem_cons.1 ht with rfl | ht
+    · exact L5_maxord_O0_ok
+    · obtain ⟨e, he, rfl⟩ := List.mem_map.1 ht
+      apply extremalOk_maxOrderOk
+      rcases List.mem_cons.1 he with rfl | he
+      · exact L5_standard_extremal_ok.1
+      · exact List.all_eq_true.1 L5_alternate_extremal_ok.2 e he
+
 /-! ## Non-vacuity: concrete instances meeting the hypotheses (p = 7, O₀ = ⟨1, i, (i+j)/2, (1+ij)/2⟩) -/
 namespace Example
 def O0 : Lattice := ⟨2, ⟨⟨2, 0, 0, 1⟩, ⟨0, 2, 1, 0⟩, ⟨0, 0, 1, 0⟩, ⟨0, 0, 0, 1⟩⟩⟩
@@ -341,6 +653,60 @@ example : (match lidealMul 7 I1 alpha with
 -- certificates produced by the C code are accepted
 example : isRightOrderCert 7 I1 RO = true := by decide +kernel
 example : isRightTransporterCert 7 I1.lattice I2.lattice T12 = true ∧ transporterCovolOk I1 I2 T12 = true := by decide +kernel
+
+/-! non-vacuity of the *full* theorems: every hypothesis is met by these concrete objects -/
+theorem O0_isOrder : IsOrder (hLat 7 O0) := isOrder_of_cert 7 O0 (by decide +kernel)
+theorem O0_hnf : O0.denom ≠ 0 ∧ IsHNF O0.basis := latWf_sound O0 (by decide +kernel)
+theorem O0_det : (toMatrix O0.basis).det ≠ 0 := det_ne_zero_of_isHNF _ O0_hnf.2
+theorem x_mem : val 7 x ∈ hLat 7 O0 :=
+  (latContains_iff_val 7 O0 x O0_hnf.1 (by decide) O0_hnf.2).1 (by decide +kernel)
+theorem x_nrm : nrm (val 7 x) = (9 : ℤ) := by simp [nrm_eq, val, x]; norm_num
+/-- I1 = O₀·(1+i+j) + 3·O₀ carries its stored norm 3 (here N(x)/3 = 3 is *not* coprime to 3: the deep case) -/
+theorem I1_ideal : IsLeftIdealOfNorm (hLat 7 O0) (hLat 7 I1.lattice) I1.norm :=
+  create_from_primitive_is_ideal_of_norm 7 x 3 O0 0 9 O0_hnf.1 (by decide) O0_isOrder x_mem x_nrm
+theorem I1_norm : I1.norm = 3 := by decide +kernel
+theorem I1_denom : I1.lattice.denom ≠ 0 := by decide +kernel
+theorem I1_gen : generatorCoprime 7 I1 1 0 = some ⟨2, ⟨-4, -1, -1, 0⟩⟩ := by decide +kernel
+/-- the generator found by the search generates I1 with 3 (full theorem, no certificate) … -/
+example : hLat 7 I1.lattice = genIdeal (hLat 7 O0) (val 7 ⟨2, ⟨-4, -1, -1, 0⟩⟩) I1.norm :=
+  (generator_generates 7 I1 1 0 _ I1_denom O0_isOrder I1_ideal (by rw [I1_norm]; decide) I1_gen).1
+/-- … and hence norm² = index for I1: covol(I1) = 9·covol(O₀), i.e. [O₀ : I1] = 9 -/
+example : covol I1.lattice = (I1.norm : ℚ) ^ 2 * covol O0 :=
+  norm_index_of_generator_partial 7 I1 1 0 _ O0_hnf.1 I1_denom O0_det O0_isOrder I1_ideal (by rw [I1_norm]; decide) I1_gen
+    (by simp [nrm_eq, val]; norm_num)
+/-- direct case: I2 = O₀·(2+i) + 5·O₀, N(2+i) = 5 = n, cofactor 1 -/
+example : covol I2.lattice = (I2.norm : ℚ) ^ 2 * covol O0 :=
+  create_from_primitive_norm_index 7 ⟨1, ⟨2, 1, 0, 0⟩⟩ 5 O0 0 5 1 O0_hnf.1 (by decide) O0_det O0_isOrder
+    ((latContains_iff_val 7 O0 _ O0_hnf.1 (by decide) O0_hnf.2).1 (by decide +kernel))
+    (by simp [nrm_eq, val]; norm_num) (by decide) (by decide) (by decide)
+/-- product: `lideal_mul` returns I1·α for α = 1 + 2i ∈ O₀ (N(α) = 5) -/
+example : ∀ J, lidealMul 7 I1 alpha = some J → hLat 7 J.lattice = hLat 7 I1.lattice * Submodule.span ℤ {val 7 alpha} := by
+  intro J hJ
+  exact (lideal_mul_returns_product 7 I1 alpha 0 0 5 J O0_hnf.1 I1_denom (by decide) O0_isOrder I1_ideal
+    (by rw [I1_norm]; decide)
+    ((latContains_iff_val 7 O0 alpha O0_hnf.1 (by decide) O0_hnf.2).1 (by decide +kernel))
+    (by simp [nrm_eq, val, alpha]; norm_num) hJ).1
+example : (lidealMul 7 I1 alpha).isSome = true := by decide +kernel
+/-- the deep case by the FULL theorem: x = 1+i+j is primitive in O₀, N(x) = 9, N = 3, n = 3 (cofactor 3 not prime to 3) -/
+example : covol I1.lattice = (I1.norm : ℚ) ^ 2 * covol O0 :=
+  create_from_primitive_norm_index_primitive 7 x 3 O0 0 9 (by decide +kernel) (by decide +kernel) (by decide)
+    (by decide +kernel) (by decide +kernel) x_nrm (by decide) (by
+      intro ℓ hℓ hd h
+      have e : Int.gcd 9 3 = 3 := by decide
+      have h3 : ℓ ∣ 3 := by rwa [e] at hd
+      have h7 : ℓ ∣ 7 := Int.natCast_dvd_natCast.1 h
+      have : ℓ ∣ Nat.gcd 3 7 := Nat.dvd_gcd h3 h7
+      have : ℓ = 1 := by simpa using this
+      exact hℓ.one_lt.ne' this)
+/-- the C outputs for right order / right transporter pass the *exact* certificates, hence are the transporter -/
+example : hLat 7 T12 = transporter (hLat 7 I1.lattice) (hLat 7 I2.lattice) := by
+  have hI2 : IsLeftIdealOfNorm (hLat 7 O0) (hLat 7 I2.lattice) I2.norm :=
+    create_from_primitive_is_ideal_of_norm 7 ⟨1, ⟨2, 1, 0, 0⟩⟩ 5 O0 0 5 O0_hnf.1 (by decide) O0_isOrder
+      ((latContains_iff_val 7 O0 _ O0_hnf.1 (by decide) O0_hnf.2).1 (by decide +kernel)) (by simp [nrm_eq, val]; norm_num)
+  exact right_transporter_exact 7 I1 I2 T12 I1_ideal
+    (norm_mem_conj_mul_of_generator_found 7 I1 1 0 _ I1_denom O0_isOrder I1_ideal (by rw [I1_norm]; decide) I1_gen)
+    hI2.left (by decide +kernel)
+example : isRightOrderExact 7 I1 RO = true := by decide +kernel
 end Example
 
 end SqiProps.C15
